@@ -104,8 +104,13 @@ let () =
       let (fs, rest) = parse_filters (int_of_string nf) rest in
       let src = source_of (parse_nodes n rest) (lister = "1") in
       let node = { d_id = nat_of_int (int_of_string start); d_at = []; d_ann = None } in
-      (match find_roots_e (fuel_for src (nat_of_int n)) src fs (z_of_int (int_of_string limit)) node
-               (nat_of_int (int_of_string k)) with
+      let r =
+        if lister = "c" then
+          find_roots_custom_e (fuel_for src (nat_of_int n)) src src.s_preds fs (z_of_int (int_of_string limit)) node
+            (nat_of_int (int_of_string k))
+        else find_roots_e (fuel_for src (nat_of_int n)) src fs (z_of_int (int_of_string limit)) node
+               (nat_of_int (int_of_string k)) in
+      (match r with
        | RFuel -> Printf.printf "%s FUEL\n" id
        | RErr -> Printf.printf "%s ERR\n" id
        | ROk roots ->
